@@ -49,14 +49,14 @@ type c14Case struct {
 	Ops []c14Op   `json:"ops"`
 }
 
-var c14Names = []string{"alice", "Alice", "ALICE", "bob", "carol", "dave", "admin", "Admin", strings.Repeat("long.account.name-", 8), strings.Repeat("u", 129), strings.Repeat("w", 256), "иван", "nobody"}
+var c14Names = []string{"alice", "Alice", "ALICE", "bob", "carol", "dave", "admin", "Admin", strings.Repeat("long.account.name-", 8), strings.Repeat("u", 129), strings.Repeat("w", 256), "иван", "EXAMPLE\\alice", "example.com\\bob", "nobody"}
 var c14Passwords = []string{"", "pw-a", "pw-b", "Pässwörd-ü", "pw-a", "correct horse", "correct horse ", " pw-a", "pw-b\n", "\tpw-b", " ", "pw-€uro", "пароль"}
 
 func genC14(t *rapid.T) c14Case {
 	var c c14Case
 	c.Naming = rapid.SampledFrom([]string{"", "port", "port", "v6port", "plain"}).Draw(t, "naming")
 	for i, n := 0, rapid.IntRange(1, 5).Draw(t, "nusers"); i < n; i++ {
-		c.DB = append(c.DB, c14User{rapid.SampledFrom(c14Names[:12]).Draw(t, "uname"), rapid.SampledFrom(c14Passwords).Draw(t, "upass")})
+		c.DB = append(c.DB, c14User{rapid.SampledFrom(c14Names[:14]).Draw(t, "uname"), rapid.SampledFrom(c14Passwords).Draw(t, "upass")})
 	}
 	db := map[string]string{}
 	for _, u := range c.DB {
@@ -86,6 +86,15 @@ func genC14(t *rapid.T) c14Case {
 				op.KeyPass = op.KeyPass + "x"
 			}
 			op.Domain = rapid.SampledFrom([]string{"", "", "EXAMPLE", "example.com"}).Draw(t, "domain")
+			// an account configured with its domain in front, addressed by the bare name plus that domain in the message's
+			// domain field: the configured user name is the qualified one, the bare one is unknown
+			if rapid.IntRange(0, 7).Draw(t, "qualified") == 0 {
+				for _, u := range c.DB {
+					if i := strings.IndexByte(u.Name, '\\'); i > 0 {
+						op.Claimed, op.KeyUser, op.KeyPass, op.Domain = u.Name[i+1:], u.Name[i+1:], u.Password, u.Name[:i]
+					}
+				}
+			}
 			op.ChalOf = -1
 			switch rapid.IntRange(0, 9).Draw(t, "chalSrc") {
 			case 0:
